@@ -20,6 +20,12 @@ CFG = {
         "Leptos.Reactive.C02_no_glitch",
         "Leptos.Reactive.C02_no_glitch_run",
         "Leptos.Reactive.C02_no_glitch_noset",
+        "Leptos.Reactive.C02_selector_scan_complete",
+        "Leptos.Reactive.C02_selector_readers_current",
+        "Leptos.Reactive.C02_selector_lookup_stale_witness",
+        "Leptos.Reactive.C02_selector_lookup_eq_scan_for_equality",
+        "Leptos.Reactive.selcFlag_eval",
+        "Leptos.Reactive.C02_selc_desugar_guard",
     ],
     "harness_pkg": "hx-c01",
     "harness_bin": "c02",
@@ -52,7 +58,7 @@ CFG = {
     "manifest": {
         "category": "proof",
         "text": (
-            'Lean 4 theorems, all for every well-formed program, every history of writes/reads/polls in ANY polling order incl. pause/resume/dispose: C02_effects_converge_readonly (at every idle point every effect whose own body does not write has last run against the current from-scratch values of everything it read; other effects may write), C02_effects_converge_nofeedback (writing effects too, when no effect writes a signal a node it reads depends on), C02_unnotified_effect_current, C02_disposed_never_runs, C02_paused_never_runs, C02_no_glitch (every read event in the whole run log - effect bodies and the memo bodies they pull, writer effects included - carries the from-scratch value of the signal environment at that log position), C02_wake_order (the effects woken by a write that reach the signal only through their own direct subscription are woken in subscription order; the unrestricted form is refuted by a kernel-checked counter-example) and C02_subs_order_kept. '
+            'Lean 4 theorems, all for every well-formed program, every history of writes/reads/polls in ANY polling order incl. pause/resume/dispose: C02_effects_converge_readonly (at every idle point every effect whose own body does not write has last run against the current from-scratch values of everything it read; other effects may write), C02_effects_converge_nofeedback (writing effects too, when no effect writes a signal a node it reads depends on), C02_unnotified_effect_current, C02_disposed_never_runs, C02_paused_never_runs, C02_no_glitch (every read event in the whole run log - effect bodies and the memo bodies they pull, writer effects included - carries the from-scratch value of the signal environment at that log position), C02_selector_scan_complete / C02_selector_readers_current (Selector::new_with_fn with ANY comparator f: the scan notifies every key whose flag changes, so after any sequence of source values a reader of any key holds f(key, current); the look-up variant of round-5 seed 2 is refuted by a kernel-checked witness and coincides with the scan for equality; C02_selc_desugar_guard: the expressions the driver desugars `selc` to denote exactly that rule), C02_wake_order (the effects woken by a write that reach the signal only through their own direct subscription are woken in subscription order; the unrestricted form is refuted by a kernel-checked counter-example) and C02_subs_order_kept. '
             'For effects with self-feedback the convergence statement is REFUTED by a kernel-checked witness confirmed on the real Effect (F-C02-2: known finding). Two defects of the code as found were REPAIRED in /repo: F-C02-1 lost update (4084efd) and F-C02-3 WriteSignal/Trigger notify drained the subscriber set (2b9d3c6); their witnesses stay as regression theorems / corpus cases. '
             'The model (Effect::new/new_sync/new_isomorphic/watch/watch_sync, RenderEffect::new/new_isomorphic, ImmediateEffect in its glitch-free shape, Selector, pause/resume/dispose at effect and root level, on_cleanup accounting, wake order, effects writing signals) is tied to reactive_graph by differential correspondence under arbitrary polling orders on a controlled executor.'
         ),
